@@ -1,3 +1,4 @@
 //! Reference models, written from the property text / Quil specification.
 
 pub mod eval;
+pub mod unitary;
